@@ -87,7 +87,7 @@ End Meta.
 (* the creation switch makes something that is no symlink and no hard link *)
 Definition solid (st : stat) : bool :=
   let m := st_mode st in
-  mode_is_dir m || (has_bits m ModeDevice || has_bits m ModeNamedPipe)
+  mode_is_dir m || ((has_bits m ModeDevice || has_bits m ModeNamedPipe) && is_nil (st_linkname st))
   || (negb (mode_is_symlink m) && is_nil (st_linkname st)).
 
 Lemma nth_split_prefix (pre cs : list bytes) k n : firstn k cs = pre -> nth_error cs k = Some n -> is_prefix (pre ++ [n]) cs.
@@ -103,8 +103,7 @@ Qed.
 (* the creation switch takes the os.Link arm *)
 Definition hardlink_branch (st : stat) : bool :=
   let m := st_mode st in
-  negb (mode_is_dir m) && negb (has_bits m ModeDevice || has_bits m ModeNamedPipe)
-  && negb (mode_is_symlink m) && negb (is_nil (st_linkname st)).
+  negb (mode_is_dir m) && negb (mode_is_symlink m) && negb (is_nil (st_linkname st)).
 
 Section Handle.
 Variables (c : ctx) (f : fs) (tmp : bytes) (p : bytes) (pre : list bytes) (bn : bytes) (st : stat).
@@ -217,7 +216,7 @@ Proof.
     split; auto. intros Hok. apply negb_true_iff in Hok.
     destruct (P Hok) as [d0 Cr]. destruct (Hfresh g _ Cr) as (dd & i & B1 & B2 & B3 & B4 & B5).
     exists dd, i. repeat split; auto; try discriminate; intros; apply B5; simpl; discriminate. }
-  destruct (has_bits (st_mode st) ModeDevice || has_bits (st_mode st) ModeNamedPipe) eqn:Edev.
+  destruct ((has_bits (st_mode st) ModeDevice || has_bits (st_mode st) ModeNamedPipe) && is_nil (st_linkname st)) eqn:Edev.
   { match goal with |- context [sys_mknod c f q ?t ?m ?rd] =>
       destruct (sys_mknod_step D (Tn nm) b c f q pre nm W Hb Hc Hq Hsafe HT t m rd) as [S P];
       destruct (sys_mknod c f q t m rd) as [g r] eqn:E end. cbn [fst snd] in *.
@@ -238,16 +237,16 @@ Proof.
     destruct (P Hok) as (i & _ & [(_ & dd & nd & A1 & A2 & A3 & _)|(_ & Cr)]).
     + rewrite (Habs dd i A1 A2) in A3. discriminate.
     + destruct (Hfresh g _ Cr) as (dd & i' & B1 & B2 & B3 & B4 & B5).
-      assert (Hsolid : solid st = true) by (unfold solid; rewrite Edir, Edev, Esym, Eln; reflexivity).
+      assert (Hsolid : solid st = true) by (unfold solid; rewrite Edir, Esym, Eln, Edev; reflexivity).
       exists dd, i'. repeat split; auto; try discriminate; intros; apply B5; simpl; discriminate.
-  - assert (Hhb : hardlink_branch st = true) by (unfold hardlink_branch; rewrite Edir, Edev, Esym, Eln; reflexivity).
+  - assert (Hhb : hardlink_branch st = true) by (unfold hardlink_branch; rewrite Edir, Esym, Eln; reflexivity).
     destruct (Hlink Hhb) as (pre1 & n1 & Hrel1 & Hs1).
     destruct (sys_link_step D (Tn nm) b c f (st_linkname st) q pre1 n1 pre nm W Hb Hc Hrel1 Hq Hs1 Hsafe HT) as [S P].
     destruct (sys_link c f (st_linkname st) q) as [g r] eqn:E. cbn [fst snd] in *.
     split; auto. intros Hok. apply negb_true_iff in Hok.
     destruct (P Hok) as (dd & dd1 & i & A1 & Hd & A2 & A3 & A4 & A5).
     exists dd, i. repeat split; auto; try congruence.
-    unfold solid. rewrite Edir, Edev, Eln. rewrite andb_false_r. simpl. discriminate.
+    unfold solid. rewrite Edir, Eln. rewrite !andb_false_r. simpl. discriminate.
 Qed.
 
 
